@@ -165,6 +165,11 @@ READ = [
     ('read-dtype', lambda bs, o, dn, n: bs.ConstBitStream(o).read(bs.Dtype(dn, n)), "bitstring.ConstBitStream(o).read(bitstring.Dtype('{dn}', {n}))"),
     ('readlist-dtype', lambda bs, o, dn, n: bs.BitStream(o).readlist([bs.Dtype(f'{dn}{n}')])[0], "bitstring.BitStream(o).readlist([bitstring.Dtype('{dn}{n}')])[0]"),
     ('dtype-of-dtype', lambda bs, o, dn, n: bs.Dtype(bs.Dtype(dn, n)).parse(o), "bitstring.Dtype(bitstring.Dtype('{dn}', {n})).parse(o)"),
+    # a length-less token reads the rest of the stream, whether it is given as a string or as a Dtype object
+    ('read-lenless', lambda bs, o, dn, n: bs.ConstBitStream(o).read(dn), "bitstring.ConstBitStream(o).read('{dn}')"),
+    ('read-dtype-lenless', lambda bs, o, dn, n: bs.ConstBitStream(o).read(bs.Dtype(dn)), "bitstring.ConstBitStream(o).read(bitstring.Dtype('{dn}'))"),
+    ('peek-dtype-lenless', lambda bs, o, dn, n: bs.BitStream(o).peek(bs.Dtype(dn)), "bitstring.BitStream(o).peek(bitstring.Dtype('{dn}'))"),
+    ('unpack-dtype-lenless', lambda bs, o, dn, n: o.unpack([bs.Dtype(dn)])[0], "o.unpack([bitstring.Dtype('{dn}')])[0]"),
 ]
 
 
